@@ -24,6 +24,7 @@ def run(tier, seed):
     from contracts import fn_sequence as Q
     items += [(Q.system_reset('C14'),), (Q.p_restore('C14'),), (Q.delegation('C14', 'e_clear', 'e_clear'),)]
     items += [(RS.dae_reset('C14'),), (RS.dae_init_t('C14'),), (RS.fix_view_arrays('C14'), None, RS.replay_snapshot),
+              (__import__('contracts.fn_address', fromlist=['x']).set_arrays_inplace('C14'),),
               (RS.save_ss_c('C14'), None, RS.replay_snapshot), (RS.load_ss_c('C14'), None, RS.replay_snapshot)]
     run_contracts(pack, items)
     RS.bounded_reset(pack, 'C14')
